@@ -1515,11 +1515,15 @@ class Field(SupportComplexDataType):
                 return self.msh_1_1.children[0].value.value
             except IndexError:
                 return self.msh_1_1.children[0].value
+            except AttributeError:  # the value is empty
+                return ''
         elif self.is_named('MSH_2'):
             try:
                 return self.msh_2_1.children[0].value.value
             except IndexError:
                 return self.msh_2_1.children[0].value
+            except AttributeError:  # the value is empty
+                return ''
         return super(Field, self).to_er7(encoding_chars, trailing_children)
 
     def is_z_element(self):
